@@ -255,7 +255,7 @@ def gen(rng, shard, nshards, n_ed, n_p256, table, rms):
         if fm is not None:
             Q, inp, hv, (i, j) = fm
             cases.append(case1("s p256 vtrunc %s %s %d %s" % (W.P256.encode_compressed(Q).hex(), inp.hex(), rm, hv.hex()), expect_p256(Q, inp, rm, hv, None),
-                               ["false-match-p256", "p256-xseq:n=199", "p256-xseq:n=200", "p256-xseq:n=0", "p256-xseq:passes-through-infinity", "p256-xseq:P0=P1", "p256-xseq:P0-infinite", "structured-s:kept-bits-all-zero", "structured-s:hidden-part-zero", "structured-s:hidden-part-all-ones", "structured-s:baby-index-zero",
+                               ["false-match-p256", "kept-bits-wrap-above-L", "p256-xseq:n=199", "p256-xseq:n=200", "p256-xseq:n=0", "p256-xseq:passes-through-infinity", "p256-xseq:P0=P1", "p256-xseq:P0-infinite", "structured-s:kept-bits-all-zero", "structured-s:hidden-part-zero", "structured-s:hidden-part-all-ones", "structured-s:baby-index-zero",
                     "structured-s:giant-index-max", "false-match-p256:" + ("j=0" if j == 0 else "j>0")], "constructed 48-bit table hit"))
     # ---- Ed25519 ----
     for it in range(n_ed):
@@ -306,8 +306,26 @@ def gen(rng, shard, nshards, n_ed, n_p256, table, rms):
                 b[32:] = S2.to_bytes(32, "little"); cl.add("kept-bits-off-by-one")
             elif m == 3:
                 msg2 = msg + b"!" if not ph else rb(rng, 64); cl.add("other-message")
-            elif m == 4:
+            elif m == 4 and rng.randrange(2):
                 b = bytearray(rb(rng, 64)); cl.add("random-input")
+            elif m == 4:
+                # kept bits = S + (L - 2^252): with the largest hidden part (+2^(rm-5) units) the rebuilt scalar is S + L, which
+                # wraps to the genuine S modulo L -- a valid signature, but not a completion of the supplied bits. Needs
+                # S + L - 2^252 < 2^(256-rm): the message is ground for it (one signature in 2^(rm-4))
+                cw = L - (1 << 252)
+                rm = rng.choice([8, 8, 9, 10, 11, 12, 13])
+                for tries in range(1 << rm):
+                    S = int.from_bytes(sig[32:], "little")
+                    if S + cw < (1 << (256 - rm)):
+                        b = bytearray(sig[:32] + (S + cw).to_bytes(32, "little"))
+                        msg2 = msg
+                        cl.add("kept-bits-wrap-above-L")
+                        break
+                    msg = rb(rng, 64) if ph else rb(rng, 12)
+                    sig = ref_ed.ed25519_sign(seed, msg, ctx, ph)
+                else:
+                    b = bytearray(rb(rng, 64)); cl.add("random-input")
+                msg2 = msg
             else:
                 b = b[:rng.choice([0, 32, 63])] + bytearray(rb(rng, rng.choice([0, 2]))); cl.add("wrong-length")
             inp = overwrite_last_bits(bytes(b), rm, "random", rng) if len(b) == 64 else bytes(b)
